@@ -14,7 +14,7 @@ func init() {
 		Technique: "reset-completeness (field write sets) + structural invariant of the all-pairs relaxation (pivot loop outermost) + decision table of mesh FindPort against the extracted neighbour wiring",
 		Explanation: "Decides: (1) Connector.NewNetwork re-initialises every field that the topology-building methods append to or increment, so a connector reused for a second network starts from the state of a fresh one; " +
 			"(2) in the Floyd-Warshall routine the relaxation d[i][j] > d[i][k] + d[k][j] is nested with the pivot k as the outermost of its three loops (the algorithm's correctness condition), updates distance and next hop together from the [i][k] entry, and the routing tables are filled from table[switch][device].nextHop; " +
-			"(3) mesh FindPort, in every ordering of destination and own coordinates on the three axes, returns the port wired (in mesh.go) to the neighbour one step closer on an axis where they differ, and the local port iff all coordinates are equal. (router-stateless) no method of the route computer stores into the router, so nothing survives from one network to the next.",
+			"(3) mesh FindPort, in every ordering of destination and own coordinates on the three axes, returns the port wired (in mesh.go) to the neighbour one step closer on an axis where they differ, and the local port iff all coordinates are equal. (router-stateless) no method of the route computer stores into the router, so nothing survives from one network to the next. (unique-names) as in C29.",
 		NotDecided:  "shortest-path optimality on arbitrary graphs as an arithmetic fact; the bandwidth-first router.",
 		Assumptions: []string{"mesh wiring functions name the neighbour by a coordinate minus one"},
 	}, runC30)
@@ -42,6 +42,7 @@ func init() {
 }
 
 func runC30(c *Ctx) {
+	uniqueNamesRule(c, "unique-names")
 	routerStatelessRule(c, "router-stateless")
 	// every port given to AddTile is registered with its tile and merged into it
 	if f := c.fn("tile-registration", "noc/networking/mesh", "Connector", "AddTile"); f != nil {
